@@ -402,6 +402,13 @@ def build(cfg, values=None):
                 p._rebuild()
                 p.a = panels[0].a if panels else p.a
                 p.Nxx, p.Nyy, p.Nxy = ctx.V('Nxx%d' % q), ctx.V('Nyy%d' % q), ctx.V('Nxy%d' % q)
+                kind = (cfg.get('panel_loads') or ['all'] * (q + 1))[q]
+                if kind == 'shear-only':
+                    p.Nxx = p.Nyy = 0.
+                elif kind == 'none':
+                    p.Nxx = p.Nyy = p.Nxy = 0.
+                elif kind == 'Nyy-only':
+                    p.Nxx = p.Nxy = 0.
                 panels.append(p)
             conn = [dict(p1=panels[k], p2=panels[k + 1], func='SSycte', ycte1=panels[k].b, ycte2=0) for k in range(len(panels) - 1)]
             asm = PanelAssembly(panels, conn)
@@ -496,6 +503,9 @@ def configs(tier, seed):
         for cuts in ((1, 2) if quick else (1, 2, 3, 4)):
             out.append({'variant': 'partition', 'which': which, 'm': 2, 'n': 2, 'cuts': cuts, 'group': 'skin-partition:%s' % which})
         out.append({'variant': 'assembly-sum', 'which': which, 'panels': [(2, 1), (1, 2), (1, 1)], 'm': 2, 'n': 1, 'group': 'assembly-sum:%s' % which})
+    # panels of one assembly under different kinds of pre-load (one in pure shear, one unloaded, one in transverse load only)
+    out.append({'variant': 'assembly-sum', 'which': 'kG0', 'panels': [(2, 2), (1, 1), (1, 2)], 'panel_loads': ['shear-only', 'none', 'Nyy-only'], 'm': 2, 'n': 2,
+                'group': 'assembly-sum:kG0:panel-wise-different-loads'})
     out.append({'variant': 'assembly-sum', 'which': 'fint', 'panels': [(2, 1), (1, 1)], 'm': 2, 'n': 1, 'group': 'assembly-sum:fint', 'timeout_ms': 120000})
     out.append({'variant': 'assembly-sum', 'which': 'kT', 'panels': [(1, 1), (1, 2)], 'm': 1, 'n': 1, 'group': 'assembly-sum:kT', 'timeout_ms': 120000})
     # the same sums after other calls on the same assembly object (the connection matrix is cached between calls)
